@@ -568,7 +568,7 @@ func c17Units(base C17Arg, shards int) []explore.Unit {
 func init() {
 	explore.Register(&explore.CheckDef{
 		ID: "C17", Level: "model_checking",
-		Rule: "N goroutines each issue one write on one store (event log; key-value and document store with the same or distinct keys); every writer is stepped by the explorer through the schedule points begin / after log append / after head persisted / between reading the log and locking the index / after view update (hooks H4, H5); all interleavings for N=2 and N=3 (N=3 bounded in quick), all schedules with <= 2 deviations for N=4..8; lock-granularity units: the store and index files are built with the vsync shim, every Lock/RLock of the write path, of replicationLoadComplete and of the index implementations is a schedule point too, and all schedules with <= 2 (thorough: 4) preemptions are run for two writers and for one writer against a thread that merges a remote writer's two entries (Sync); every execution runs to completion, then the instance is closed, reopened on the same cache and loaded. Units with a storage fault let one write of the cached local head fail (explorer's choice which). Oracle: acknowledged calls returned pairwise distinct entries, each recorded exactly once before restart and exactly once after reopen+Load(-1), and the key-value / document view equals the replay of the store's own log once all writers have returned. Non-trivial = executions with at least one deviation from the canonical (sequential) schedule.",
+		Rule: "N goroutines each issue one write on one store (event log; key-value and document store with the same or distinct keys); every writer is stepped by the explorer through the schedule points begin / after log append / after head persisted / between reading the log and locking the index / after view update (hooks H4, H5); all interleavings for N=2 and N=3 (N=3 bounded in quick), all schedules with <= 2 deviations for N=4..8; lock-granularity units: the store and index files are built with the vsync shim, every Lock/RLock of the write path, of replicationLoadComplete and of the index implementations is a schedule point too, and all schedules with <= 2 (thorough: 3) preemptions are run for two writers and for one writer against a thread that merges a remote writer's two entries (Sync); every execution runs to completion, then the instance is closed, reopened on the same cache and loaded. Units with a storage fault let one write of the cached local head fail (explorer's choice which). Oracle: acknowledged calls returned pairwise distinct entries, each recorded exactly once before restart and exactly once after reopen+Load(-1), and the key-value / document view equals the replay of the store's own log once all writers have returned. Non-trivial = executions with at least one deviation from the canonical (sequential) schedule.",
 		Units: func(tier string) []explore.Unit {
 			var u []explore.Unit
 			u = append(u, c17Units(C17Arg{N: 2, Per: 1, Bound: -1}, 8)...)
@@ -588,7 +588,7 @@ func init() {
 			// lock granularity: every Lock/RLock of the write path and of the index implementations is a point
 			lb := 2
 			if tier == "thorough" {
-				lb = 4
+				lb = 3
 			}
 			for _, k := range []string{"eventlog", "keyvalue-same", "docstore-same"} {
 				u = append(u, c17Units(C17Arg{Kind: k, N: 2, Per: 1, Bound: lb, Locks: true}, 8)...)
